@@ -53,12 +53,16 @@ def configs(tier, rnd):
         for outl in (False, True):
             for wiring in ("run", "lib"):
                 n3.append((3, kind, outl, wiring, 2, "1/2"))
+    # more particles on two data points: resampling with multiplicities (multinomial(N-1) over 4-5 slots)
+    n2 = [(2, "semi-adapted", False, "run", 4, "1/2")]
     if tier == "quick":
         rnd.shuffle(n3)
         n3 = n3[:3]
     else:
         n3 += [(3, kind, False, "run", 3, th) for kind in KINDS for th in ("0/1", "7/10")]
-    return out + n3
+        n2 += [(2, kind, False, w, 4, th) for kind in KINDS for w in ("run", "lib") for th in ("0/1", "7/10")]
+        n2 += [(2, "bootstrap", True, "run", 4, "1/2"), (2, "fully-adapted", False, "run", 5, "1/2")]
+    return out + n3 + n2
 
 
 def cases(tier, rnd):
